@@ -589,11 +589,23 @@ impl Monitor for C05 {
             ("sweep", tier.pick(40000, 4000000)),
             ("iplevel", tier.pick(1000000, 100000000)),
             ("single", tier.pick(1000000, 100000000)),
+            ("corpus", tier.pick(400_000, 8_000_000)),
         ]
     }
 
-    fn run_case(&mut self, engine: &str, _idx: u64, rng: &mut Prng, rep: &mut Report) {
+    fn run_case(&mut self, engine: &str, idx: u64, rng: &mut Prng, rep: &mut Report) {
         match engine {
+            "corpus" => match gen::corpus::case(idx, rng) {
+                Some(case) => {
+                    rep.count("corpus_cases");
+                    self.pair(rep, &case, Family::Sliced, Family::LaxSliced);
+                    self.pair(rep, &case, Family::Headers, Family::LaxHeaders);
+                    if case.start == Start::Ip {
+                        self.ip_level(rep, &case.bytes);
+                    }
+                }
+                None => rep.selfcheck_fail("corpus file missing".into()),
+            },
             "clean" | "hostile" => {
                 let o = if engine == "clean" { GenOpts::clean() } else { GenOpts::hostile() };
                 let case = gen::gen_case(rng, &o);
